@@ -7,7 +7,7 @@ checks="${*:-$prop}"
 export GOFLAGS=-mod=mod GOPROXY=off GOSUMDB=off GOTOOLCHAIN=local
 wt=/tmp/evalmut_$$
 git -C /repo worktree add --detach "$wt" HEAD -f >/dev/null 2>&1 || { echo "worktree failed"; exit 2; }
-trap 'git -C /repo worktree remove --force "$wt" >/dev/null 2>&1; git -C /repo checkout -- . 2>/dev/null' EXIT
+trap 'git -C /repo worktree remove --force "$wt" >/dev/null 2>&1' EXIT
 demodir=$(python3 -c "import json;print(json.load(open('$dir/meta.json')).get('demo_dir','.'))")
 [ "$demodir" = "" ] && demodir=.
 tests=$(grep -o '^func Test[A-Za-z0-9_]*' "$dir/demo_test.go" | sed 's/func //' | paste -sd'|')
@@ -33,12 +33,10 @@ print('baseline_bad=%d'%len(bad)); [print('  ',t) for t in bad[:5]]
 " ) > /tmp/evalmut_base.log 2>&1
 basebad=$(grep -o 'baseline_bad=[0-9]*' /tmp/evalmut_base.log | cut -d= -f2)
 echo "CONFIRM $dir demo_clean_exit=$clean demo_mutant_exit=$mut baseline_bad=$basebad"
-# 4. run the checks against /repo with the patch applied
-git -C /repo apply "$dir/patch.diff" || { echo "cannot apply to /repo"; exit 2; }
+# 4. run the checks against the scratch worktree with the patch applied (/repo itself stays untouched)
 for c in $checks; do
-  out=/tmp/evalmut_check_$c.log
-  /verif/checks/check "$c" quick > "$out" 2>&1; ec=$?
+  out=/tmp/evalmut_check_${c}_$$.log
+  VERIF_REPO="$wt" VERIF_EVIDENCE="/tmp/evalmut_evidence_$$.json" /verif/checks/check "$c" quick > "$out" 2>&1; ec=$?
   v=$(grep -c '^VIOLATION' "$out")
   echo "RESULT $dir check=$c exit=$ec violations=$v $(grep -m2 'violation:' "$out" | cut -c1-160 | tr '\n' '|')"
 done
-git -C /repo checkout -- .
